@@ -37,7 +37,7 @@ def step (line : String) : String :=
       match parseRat? loc, parseRat? sc, parseRat? p0, bool? rand, rats? xs, rats? us with
       | some loc, some sc, some p0, some rand, some xs, some us =>
           if xs.length ≠ us.length then "bad-op"
-          else out (List.zipWith (fun x u => hurdleCdf (ratFam loc sc) p0 rand u x) xs us)
+          else out (hurdleCdfL (ratFam loc sc) p0 rand us xs)
       | _, _, _, _, _, _ => "bad-op"
   | ["hppf", loc, sc, p0, qs] =>
       match parseRat? loc, parseRat? sc, parseRat? p0, rats? qs with
@@ -45,7 +45,7 @@ def step (line : String) : String :=
       | _, _, _, _ => "bad-op"
   | ["izcdf", loc, sc, xs] =>
       match parseRat? loc, parseRat? sc, rats? xs with
-      | some loc, some sc, some xs => showList showERat (xs.map (izCdf (ratFam loc sc)))
+      | some loc, some sc, some xs => showList showERat (izCdfL (ratFam loc sc) xs)
       | _, _, _ => "bad-op"
   | ["izppf", loc, sc, qs] =>
       match parseRat? loc, parseRat? sc, parseList? erat? qs with
@@ -54,11 +54,11 @@ def step (line : String) : String :=
   | ["censarg", thr, xs, us] =>
       match parseRat? thr, rats? xs, rats? us with
       | some thr, some xs, some us =>
-          if xs.length ≠ us.length then "bad-op" else out (List.zipWith (fun x u => censArg thr u x) xs us)
+          if xs.length ≠ us.length then "bad-op" else out (censArgL thr us xs)
       | _, _, _ => "bad-op"
   | ["censpost", thr, c, vs] =>
       match parseRat? thr, bool? c, rats? vs with
-      | some thr, some c, some vs => out (vs.map (censPost thr c))
+      | some thr, some c, some vs => out (censPostL thr c vs)
       | _, _, _ => "bad-op"
   | ["censfit", thr, d] =>
       match parseRat? thr, rats? d with
